@@ -367,8 +367,10 @@ func suiteLex(o *suiteOut, r *rng, tier string, n int) {
 	for i := 0; i < nr/10; i++ {
 		var sb strings.Builder
 		var want []postscript.Comment
+		var cuts []int // positions between complete comment groups
 		sb.WriteString("%!PS-Adobe-3.0\n")
 		for j := r.rangeInt(1, 5); j > 0; j-- {
+			cuts = append(cuts, sb.Len())
 			key := pick(r, []string{"Title", "Creator", "CreationDate", "BoundingBox", "X"})
 			val := pick(r, []string{"hello world", "1 2 3 4", "", "(a) b", "x  y"})
 			eol := pick(r, []string{"\n", "\r", "\r\n"})
@@ -393,6 +395,39 @@ func suiteLex(o *suiteOut, r *rng, tier string, n int) {
 		o.count("DSC programs")
 		if fmt.Sprint(intp.DSC) != fmt.Sprint(want) {
 			o.fail("C04", "%%Key: value lines (with %%+ continuations) are collected in order", line, fmt.Sprint(want), fmt.Sprint(intp.DSC))
+		}
+		// the same text handed over in several Execute calls: Interpreter.DSC holds all comments read so far
+		var parts []string
+		last := 0
+		for _, c := range cuts {
+			if c > last && r.chance(1, 2) {
+				parts = append(parts, prog[last:c])
+				last = c
+			}
+		}
+		parts = append(parts, prog[last:])
+		if r.chance(1, 3) {
+			parts = append(parts, pick(r, []string{"1 2 add\n", "% nothing\n", ""}))
+		}
+		if len(parts) > 1 {
+			mi := postscript.NewInterpreter()
+			ok := true
+			for _, part := range parts {
+				if mi.Execute(strings.NewReader(part)) != nil {
+					ok = false
+					break
+				}
+			}
+			rline := runsLine(o, 0, false, parts)
+			o.count("DSC programs split over several calls")
+			if ok && fmt.Sprint(mi.DSC) != fmt.Sprint(want) {
+				var hs []string
+				for _, part := range parts {
+					hs = append(hs, hx([]byte(part)))
+				}
+				_ = rline
+				o.fail("C04", "the comments of all calls so far are kept in order (several Execute calls)", "runs 0 0 "+strings.Join(hs, ","), fmt.Sprint(want), fmt.Sprint(mi.DSC))
+			}
 		}
 	}
 	// the library's own serialisation of any byte string / regular name reads back identically
@@ -696,6 +731,24 @@ func suiteEexec(o *suiteOut, r *rng, tier string, n int) {
 			o.fail("C05", "executing the encrypted section has exactly the effect of executing the plaintext with systemdict pushed", lineE, stateWithoutCount(resC), stateWithoutCount(resE))
 		}
 	}
+	// a structured comment on the first line of the plaintext, for lead bytes ending in a line end or not
+	for _, last := range []byte{'\n', '\r', 'z', ' ', 0} {
+		inner := []byte("%%Foo: bar\n%%Baz: 1\n1 2 add mark currentfile closefile\n")
+		cipher := cipherEncrypt(55665, append([]byte{0xF1, 'x', 'y', last}, inner...))
+		enc := "%!\ncurrentfile eexec\n" + fmt.Sprintf("%x", cipher) + "\n" + strings.Repeat("0", 64) + "\ncleartomark 99\n"
+		clear := "%!\nsystemdict begin\n%%Foo: bar\n%%Baz: 1\n1 2 add mark end \n" + strings.Repeat("0", 64) + "\ncleartomark 99\n"
+		lineE := runCaseLine(100000, false, enc)
+		classE, intpE := p.run(100000, false, enc)
+		if intpE == nil {
+			continue
+		}
+		resE, _, _ := runProgram(100000, false, []byte(enc))
+		resC, _, classC := runProgram(100000, false, []byte(clear))
+		o.count("structured comment on the first plaintext line")
+		if classE != classC || stateWithoutCount(resE) != stateWithoutCount(resC) {
+			o.fail("C05", "executing the encrypted section has exactly the effect of executing the plaintext (structured comment on the first plaintext line)", fmt.Sprintf("eexec-dsc lead byte 4 = %#02x; %s", last, lineE), lastN(stateWithoutCount(resC), 200), lastN(stateWithoutCount(resE), 200))
+		}
+	}
 	o.notes = append(o.notes, "plaintext programs (data and control programs, embedded binary strings read with readstring) x {hex upper/lower with white space at any position after the first four digits, binary} x random and boundary four-byte prefixes legal for the form x prefixes and trailers (zeros + cleartomark); direct oracle: canonical interpreter state after the encrypted program = state after the plaintext program run inside `systemdict begin ... end`; every encrypted program also runs through the Lean model of the scanner's eexec mode")
 	_ = postscript.ErrNoPostScript
 }
@@ -723,4 +776,11 @@ func init() {
 		}
 	}
 	suites["eexec"] = suiteEexec
+}
+
+func lastN(s string, n int) string {
+	if len(s) > n {
+		return s[len(s)-n:]
+	}
+	return s
 }
